@@ -60,10 +60,23 @@ def summarize(spec, case, res, tier):
     return s
 
 
-_WORKER_HISTORY = []      # seeds this worker process has executed so far, in order (across chunks)
+_WORKER_HISTORY = []      # seeds executed so far in this process (one lane of a batch), in order
+
+LANES = 16                # a batch is dealt over this many lanes whatever the number of cores: see run_batch
 
 
-def _run_chunk(args):
+def _run_lane(q, stop_ev, lane, check_id, tier, chunks, per_run_timeout):
+    """Body of one lane process: run the lane's chunks in order, streaming each chunk's summaries to the parent."""
+    try:
+        for c in chunks:
+            if stop_ev.is_set():
+                break
+            q.put(('chunk', lane, _run_chunk_here((check_id, tier, c, per_run_timeout))))
+    finally:
+        q.put(('done', lane, None))
+
+
+def _run_chunk_here(args):
     check_id, tier, seeds, per_run_timeout = args
     from . import checks
     spec = checks.get(check_id)
@@ -156,65 +169,103 @@ class Aggregate:
 
 def run_batch(spec, tier, base_seed, n_runs, wall_budget, per_run_timeout=120, stop_on_violation=True,
               chunk=None):
-    """Run seeds base_seed*10^6 + i.  Returns Aggregate."""
+    """Run seeds base_seed*1000003 + i.  Returns Aggregate.
+
+    The seeds are cut into chunks and the chunks dealt round-robin over LANES lanes; every lane is one fresh
+    process that runs its chunks in order.  Which runs share a process, and in which order, is therefore a function
+    of (base_seed, n_runs) alone -- not of the number of cores or of which worker happened to be free -- so whatever
+    the library keeps from one computation to the next (class caches, class attributes) reaches every run the same
+    way in every execution of the batch, and a violation that needs such history is reproduced by replaying the
+    lane's earlier seeds (history_replay)."""
+    import queue as _queue
     agg = Aggregate(spec.check_id)
     t0 = time.time()
     nproc = NPROC
     if chunk is None:
-        chunk = max(1, min(50, n_runs // (nproc * 4) or 1))
+        chunk = max(1, min(50, n_runs // (LANES * 8) or 1))
     seeds = [base_seed * 1000003 + i for i in range(n_runs)]
     chunks = [seeds[i:i + chunk] for i in range(0, len(seeds), chunk)]
+    lanes = [chunks[k::LANES] for k in range(LANES)]
+    lanes = [(k, cs) for k, cs in enumerate(lanes) if cs]
     ctx = multiprocessing.get_context('fork')
     faulthandler.enable()
-    ex = cf.ProcessPoolExecutor(max_workers=nproc, mp_context=ctx)
+    q = ctx.Queue()
+    stop_ev = ctx.Event()
+    procs = {}
+    waiting = list(lanes)
+    finished = set()
+    agg.abandoned_chunks = 0
+
+    def launch():
+        while waiting and len([p for p in procs.values() if p.is_alive()]) < nproc:
+            k, cs = waiting.pop(0)
+            pr = ctx.Process(target=_run_lane, args=(q, stop_ev, k, spec.check_id, tier, cs, per_run_timeout),
+                             daemon=True)
+            pr.start()
+            procs[k] = pr
+
+    def drain(timeout):
+        try:
+            kind, k, out = q.get(timeout=timeout)
+        except _queue.Empty:
+            return False
+        if kind == 'done':
+            finished.add(k)
+        else:
+            for s in out:
+                agg.add(s)
+        return True
+
     try:
-        pending = set()
-        it = iter(chunks)
-        exhausted = False
+        launch()
         stop = False
+        grace = None
         while True:
-            while not exhausted and not stop and len(pending) < nproc * 2:
-                try:
-                    c = next(it)
-                except StopIteration:
-                    exhausted = True
-                    break
-                pending.add(ex.submit(_run_chunk, (spec.check_id, tier, c, per_run_timeout)))
-            if not pending:
+            drain(2)
+            while drain(0):
+                pass
+            launch()
+            for k, pr in procs.items():
+                if k not in finished and not pr.is_alive():
+                    while drain(0.2):
+                        pass
+                    if k not in finished:
+                        finished.add(k)
+                        agg.add({'seed': -1 - k, 'ok': False, 'viol': [], 'herr': f'harness: lane {k} process died '
+                                 f'(exit {pr.exitcode})', 'case': None, 'stats': {}, 'nontrivial': False,
+                                 'digest': f'lane{k}', 'cfg': None, 'strategy': '?', 'steps': 0, 'sim_time': 0,
+                                 'bytes': 0, 'probes': {}, 'extra': None, 'outcome': 'harness'})
+            if len(finished) == len(lanes) and not waiting:
                 break
-            done, pending = cf.wait(pending, timeout=5, return_when=cf.FIRST_COMPLETED)
-            for f in done:
-                for s in f.result():
-                    agg.add(s)
-            if time.time() - t0 > wall_budget:
-                stop = True
-            if stop_on_violation and agg.violations:
-                stop = True
-            if stop:
-                for f in pending:
-                    f.cancel()
-                # give the chunks that are already running a bounded grace period, then abandon them
-                grace = time.time() + min(45, per_run_timeout)
-                live = [f for f in pending if not f.cancelled()]
-                while live and time.time() < grace:
-                    done, _ = cf.wait(live, timeout=2, return_when=cf.FIRST_COMPLETED)
-                    for f in done:
-                        try:
-                            for s in f.result():
-                                agg.add(s)
-                        except Exception:
-                            pass
-                    live = [f for f in live if not f.done()]
-                agg.abandoned_chunks = len(live)
+            if not stop:
+                if time.time() - t0 > wall_budget or (stop_on_violation and agg.violations):
+                    stop = True
+                    stop_ev.set()
+                    del waiting[:]
+                    # give the chunks that are already running a bounded grace period, then abandon them
+                    grace = time.time() + min(45, per_run_timeout)
+            elif time.time() > grace:
+                agg.abandoned_chunks = len([k for k in procs if k not in finished])
                 break
     finally:
-        procs = list(getattr(ex, '_processes', {}).values())
-        ex.shutdown(wait=False, cancel_futures=True)
-        for pr in procs:
+        for pr in procs.values():
             try:
-                pr.terminate()
+                if pr.is_alive():
+                    pr.terminate()
             except Exception:
                 pass
+        for pr in procs.values():
+            try:
+                pr.join(2)
+                if pr.is_alive():
+                    pr.kill()
+            except Exception:
+                pass
+        try:
+            q.close()
+            q.cancel_join_thread()
+        except Exception:
+            pass
     agg.wall = time.time() - t0
     return agg
 
